@@ -20,8 +20,10 @@ var c03ExtN int
 
 // c03Ext: any supported extension (thorough); in the quick tier a choice of
 // two, rotating through all four from file to file.
+var c03Rotate bool
+
 func c03Ext() string {
-	if vTier() > 0 {
+	if vTier() > 0 && !c03Rotate {
 		return c03Exts[ndChoice(len(c03Exts))]
 	}
 	c03ExtN++
@@ -93,6 +95,9 @@ func HarnessC03_chain() {
 	if vTier() > 0 {
 		depth = 1 + ndChoice(4)
 	}
+	// thorough: every extension for every file up to depth 3; the depth-4
+	// chains use the rotating choice of two
+	c03Rotate = depth == 4
 	names := []string{"a", "a.b", "a.b.c", "a.b.c.d"}[:depth]
 	renamed := []string{"x", "y", "z", "q"}[:depth]
 	sameExt := false
